@@ -1110,8 +1110,15 @@ Proof. vm_compute. reflexivity. Qed.
 (* ------------------------------------------------------------------------------------------------ *)
 (* work bound for the loops driven by a numeric argument *)
 
-Lemma repeat_text_length : forall t n, length (repeat_text t n) = (n * length t)%nat.
-Proof. intros t n. induction n as [|n IH]; simpl; [reflexivity|]. rewrite app_length, IH. reflexivity. Qed.
+(* the instrumented loop: what it builds and how many cells it writes *)
+Lemma repeat_loop_spec : forall t n out cells,
+  length (fst (repeat_loop t n out cells)) = (length out + n * length t)%nat /\
+  snd (repeat_loop t n out cells) = (cells + N.of_nat (n * length t))%N.
+Proof.
+  intros t n. induction n as [|n IH]; intros out cells; simpl.
+  - split; [lia|]. lia.
+  - destruct (IH (out ++ t) (cells + N.of_nat (length t))%N) as [H1 H2]. rewrite H1, H2, app_length. split; lia.
+Qed.
 
 Definition work_constant : N := 408%N.
 
@@ -1137,14 +1144,46 @@ Proof.
   intros [->|H]; [lia|]. specialize (IH H). lia.
 Qed.
 
+Lemma trunc_cost_bound : forall d, (trunc_cost d <= 2 * dec_size d)%N.
+Proof. intros d. unfold trunc_cost, rescale_cost, dec_size. lia. Qed.
+
+Lemma to_integer_work_bound : forall a args, numbers_sized args -> In a args ->
+  (to_integer_work a <= 2 * args_size args)%N.
+Proof.
+  intros a args Hs Hin. unfold to_integer_work. destruct (to_number a) as [d|] eqn:E; [|lia].
+  pose proof (trunc_cost_bound d). pose proof (Hs a d Hin E). pose proof (args_size_in a args Hin). lia.
+Qed.
+
 Lemma round_work_bound : forall d places,
-  bad_places places = false -> (2 * round_work d places + 2 <= work_constant * (dec_size d + 1))%N.
+  bad_places places = false -> (2 * round_work d places + 2 <= 4 * dec_size d + 208)%N.
 Proof.
   intros d places H. unfold bad_places, max_rounding_places in H. apply orb_false_iff in H as [H1 H2].
-  apply Z.ltb_ge in H1. apply Z.ltb_ge in H2. unfold round_work, work_constant.
-  assert (Z.abs_N (dexp d + places + 1) <= dec_size d + 101)%N.
-  { unfold dec_size. lia. }
-  lia.
+  apply Z.ltb_ge in H1. apply Z.ltb_ge in H2. unfold round_work, rescale_cost, dec_size. lia.
+Qed.
+
+Lemma round_family_bound : forall a0 r, numbers_sized (a0 :: r) ->
+  (match to_number a0 with
+   | Ok d => match r with
+             | [] => round_work d 0
+             | a1 :: _ => (to_integer_work a1 +
+                           match to_integer a1 with
+                           | Ok places => if bad_places places then 0%N else (2 * round_work d places + 2)%N
+                           | Bad => 0%N
+                           end)%N
+             end
+   | Bad => 0%N
+   end <= work_constant * (args_size (a0 :: r) + 1))%N.
+Proof.
+  intros a0 r Hs. unfold work_constant.
+  destruct (to_number a0) as [d|] eqn:Ed; [|lia].
+  assert (Hd : (dec_size d <= args_size (a0 :: r))%N).
+  { etransitivity; [apply (Hs a0 d); [left; reflexivity|assumption]|apply args_size_in; left; reflexivity]. }
+  destruct r as [|a1 r].
+  - pose proof (round_work_bound d 0 eq_refl). lia.
+  - pose proof (to_integer_work_bound a1 (a0 :: a1 :: r) Hs (or_intror (or_introl eq_refl))) as H1.
+    destruct (to_integer a1) as [places|]; [|lia].
+    destruct (bad_places places) eqn:Eb; [lia|].
+    pose proof (round_work_bound d places Eb). lia.
 Qed.
 
 Theorem work_bound : forall f args, numbers_sized args ->
@@ -1152,41 +1191,37 @@ Theorem work_bound : forall f args, numbers_sized args ->
 Proof.
   intros f args Hs. unfold work.
   destruct f; try (apply N.le_0_l); destruct args as [|a0 r]; try (apply N.le_0_l).
+  - (* char *)
+    destruct r; [|apply N.le_0_l].
+    pose proof (to_integer_work_bound a0 [a0] Hs (or_introl eq_refl)). unfold work_constant. lia.
   - (* repeat *)
     destruct r as [|a1 [|a2 r]]; try (apply N.le_0_l).
-    destruct (to_text a0) as [t|] eqn:Et; [|apply N.le_0_l].
-    destruct (to_integer a1) as [count|] eqn:Ec; [|apply N.le_0_l].
-    destruct (count <? 0) eqn:En; [apply N.le_0_l|]. destruct t as [|c t]; [apply N.le_0_l|].
-    assert (Hr : call_function FRepeat [a0; a1] = Ret (VText (repeat_text (c :: t) (Z.to_nat count)))).
+    pose proof (to_integer_work_bound a1 [a0; a1] Hs (or_intror (or_introl eq_refl))) as Hi.
+    destruct (to_text a0) as [t|] eqn:Et; [|unfold work_constant; lia].
+    destruct (to_integer a1) as [count|] eqn:Ec; [|unfold work_constant; lia].
+    destruct (count <? 0) eqn:En; [unfold work_constant; lia|]. destruct t as [|c t]; [unfold work_constant; lia|].
+    assert (Hr : call_function FRepeat [a0; a1] = Ret (VText (fst (repeat_loop (c :: t) (Z.to_nat count) [] 0%N)))).
     { unfold ExEval.call_function. simpl. unfold text_and_integer_function, num_args, min_max_args, with_arg. simpl.
       rewrite Et, Ec. unfold repeat_body. rewrite En. reflexivity. }
-    rewrite Hr. simpl res_size. unfold value_size. simpl render_value. rewrite repeat_text_length.
-    apply Z.ltb_ge in En. unfold work_constant. lia.
-  - (* round *)
-    destruct (to_number a0) as [d|] eqn:Ed; [|apply N.le_0_l].
-    assert (Hd : (dec_size d <= args_size (a0 :: r))%N).
-    { etransitivity; [apply (Hs a0 d); [left; reflexivity|assumption]|apply args_size_in; left; reflexivity]. }
-    destruct r as [|a1 r].
-    + pose proof (round_work_bound d 0 eq_refl). unfold work_constant in *. lia.
-    + destruct (to_integer a1) as [places|]; [|apply N.le_0_l].
-      destruct (bad_places places) eqn:Eb; [apply N.le_0_l|].
-      pose proof (round_work_bound d places Eb). unfold work_constant in *. lia.
-  - destruct (to_number a0) as [d|] eqn:Ed; [|apply N.le_0_l].
-    assert (Hd : (dec_size d <= args_size (a0 :: r))%N).
-    { etransitivity; [apply (Hs a0 d); [left; reflexivity|assumption]|apply args_size_in; left; reflexivity]. }
-    destruct r as [|a1 r].
-    + pose proof (round_work_bound d 0 eq_refl). unfold work_constant in *. lia.
-    + destruct (to_integer a1) as [places|]; [|apply N.le_0_l].
-      destruct (bad_places places) eqn:Eb; [apply N.le_0_l|].
-      pose proof (round_work_bound d places Eb). unfold work_constant in *. lia.
-  - destruct (to_number a0) as [d|] eqn:Ed; [|apply N.le_0_l].
-    assert (Hd : (dec_size d <= args_size (a0 :: r))%N).
-    { etransitivity; [apply (Hs a0 d); [left; reflexivity|assumption]|apply args_size_in; left; reflexivity]. }
-    destruct r as [|a1 r].
-    + pose proof (round_work_bound d 0 eq_refl). unfold work_constant in *. lia.
-    + destruct (to_integer a1) as [places|]; [|apply N.le_0_l].
-      destruct (bad_places places) eqn:Eb; [apply N.le_0_l|].
-      pose proof (round_work_bound d places Eb). unfold work_constant in *. lia.
+    rewrite Hr. simpl res_size. unfold value_size. simpl render_value.
+    destruct (repeat_loop_spec (c :: t) (Z.to_nat count) [] 0%N) as [H1 H2]. rewrite H1, H2.
+    unfold work_constant. simpl length. lia.
+  - pose proof (round_family_bound a0 r Hs). unfold work_constant in *. lia.
+  - pose proof (round_family_bound a0 r Hs). unfold work_constant in *. lia.
+  - pose proof (round_family_bound a0 r Hs). unfold work_constant in *. lia.
+Qed.
+
+(* + - < <= > >= : both operands are brought to the smaller exponent *)
+Theorem binop_work_bound : forall op x y, numbers_sized [x; y] ->
+  (binop_work op x y <= 2 * (value_size x + value_size y))%N.
+Proof.
+  intros op x y Hs. unfold binop_work.
+  assert (H : (match to_number x, to_number y with Ok a, Ok b => rescale_pair_cost a b | _, _ => 0%N end
+               <= 2 * (value_size x + value_size y))%N).
+  { destruct (to_number x) as [a|] eqn:Ex; [|lia]. destruct (to_number y) as [b|] eqn:Ey; [|lia].
+    pose proof (Hs x a (or_introl eq_refl) Ex). pose proof (Hs y b (or_intror (or_introl eq_refl)) Ey).
+    unfold rescale_pair_cost, rescale_cost, dec_size in *. lia. }
+  destruct op; try lia; exact H.
 Qed.
 
 End Work.
